@@ -3,6 +3,7 @@ package e1
 import (
 	"encoding/hex"
 	"github.com/polynetwork/poly/native/service/governance/neo3_state_manager"
+	"math/big"
 	"sort"
 
 	"github.com/ontio/ontology-crypto/keypair"
@@ -192,4 +193,29 @@ func (v View) SVRemoveRaw(id uint64) []byte {
 }
 func (v View) StateValidatorsRaw() []byte {
 	return v.Get(chain.Neo3State, []byte(neo3_state_manager.STATE_VALIDATOR))
+}
+
+// FeeView / FeeRoundStart: a chain's current fee-voting round and the start time of a round.
+func (v View) FeeView(chainID uint64) uint64 {
+	raw := v.Get(chain.SideChainManager, []byte(side_chain_manager.FEE), u64(chainID))
+	if raw == nil {
+		return 0
+	}
+	f := &side_chain_manager.Fee{Fee: new(big.Int)}
+	if f.Deserialization(common.NewZeroCopySource(raw)) != nil {
+		return 0
+	}
+	return f.View
+}
+
+func (v View) FeeRoundStart(chainID, view uint64) uint32 {
+	raw := v.Get(chain.SideChainManager, []byte(side_chain_manager.FEE_INFO), u64(chainID), u64(view))
+	if raw == nil {
+		return 0
+	}
+	fi := &side_chain_manager.FeeInfo{FeeInfo: map[common.Address]*big.Int{}}
+	if fi.Deserialization(common.NewZeroCopySource(raw)) != nil {
+		return 0
+	}
+	return fi.StartTime
 }
